@@ -20,14 +20,15 @@ U == {IOfInt(n) : n \in -4..7}          \* finite window in which emptiness is d
 SemU(c) == {x \in U : Sat(c, x, BMin, BMax)}
 Bin == {CUnion(a, b) : a \in Leaves, b \in Leaves} \cup {CInter(a, b) : a \in Leaves, b \in Leaves}
        \cup {CExcept(a, b) : a \in Leaves, b \in Leaves} \cup {CSerial(a, b) : a \in Leaves, b \in Leaves}
+AllEx == {CAllExcept(b) : b \in Leaves} \cup {CSerial(a, CAllExcept(b)) : a \in Leaves, b \in Leaves}
 Exts == {CExt(a) : a \in Leaves} \cup {CExtAdd(a, b) : a \in Leaves, b \in Leaves}
         \cup {CSerial(CExt(a), b) : a \in Leaves, b \in Leaves} \cup {CSerial(a, CExt(b)) : a \in Leaves, b \in Leaves}
         \* (an extension marker cannot occur inside a union / intersection: X.680 ElementSetSpecs)
 \* a serially applied constraint must stay within its parent (X.680 50.?: asn1c rightly rejects others)
-Within(c) == LET p == EffIn(c.a, BMin, BMax) IN {x \in U : Sat(c.b, x, p.lb, p.ub)} \subseteq SemU(c.a)
+Within(c) == c.b.op = "allexcept" \/ LET p == EffIn(c.a, BMin, BMax) IN {x \in U : Sat(c.b, x, p.lb, p.ub)} \subseteq SemU(c.a)
 NonEmpty(c) == SemU(c) # {} /\ (c.op = "serial" => SemU(c.a) # {} /\ Within(c))
                /\ (c.op = "ext" /\ c.b.op # "none" => SemU(c.b) # {} /\ SemU(c.a) # {})
-Exprs == {c \in (IF Depth = 1 THEN Leaves \cup {CExt(a) : a \in Leaves} ELSE Leaves \cup Bin \cup Exts) : NonEmpty(c)}
+Exprs == {c \in (IF Depth = 1 THEN Leaves \cup {CExt(a) : a \in Leaves} ELSE Leaves \cup Bin \cup Exts \cup AllEx) : NonEmpty(c)}
 Indexed == SetSeq(Exprs)
 Mine == {i \in DOMAIN Indexed : i % Parts = Part}
 
@@ -43,7 +44,7 @@ Export == PrintT(<<"SCN", ToJson([expr |-> ex, per |-> EffRec(ex), oer |-> OerRe
 \* model-level: interval abstraction is sound w.r.t. the set semantics (on the window U)
 Sound == LET e == Eff(ex) IN
          /\ (e.has /\ ~e.ext => \A x \in SemU(ex) : InRange(e, x))
-         /\ (~e.has => ex.op = "none")
+         /\ (~e.has => ex.op \in {"none", "allexcept"})
 
 \* ---- judge ---------------------------------------------------------------------------
 Scn == ndJsonDeserialize(IOEnv.VERIF_SCENARIOS)
